@@ -119,9 +119,25 @@ def main(argv):
         env.assert_chameleon_origin()
         mod = importlib.import_module('checks.' + prop.lower())
         mod.run(ctx)
-    except BaseException:
+    except BaseException as exc:
         status = 'crash'
         err = traceback.format_exc()
+        # An exception the workload did not anticipate.  If it comes out of Chameleon (its source files or a
+        # template it compiled) the real code misbehaved on an input this workload is known to handle on the
+        # reference tree: that is an observation, not a harness failure.  Anything else stays a crash
+        # (-> inconclusive).
+        tb = exc.__traceback__
+        frames = []
+        while tb is not None:
+            frames.append(tb.tb_frame.f_code.co_filename)
+            tb = tb.tb_next
+        inner = frames[-1] if frames else ''
+        if isinstance(exc, Exception) and frames and (inner.startswith(env.SRC) or inner == '<string>' or inner.endswith('.pt') or
+                                                      getattr(exc, '_original__str__', None) is not None):
+            status = 'ok-aborted'
+            ctx.violation('workload-raised-inside-chameleon:' + type(exc).__name__,
+                          'the workload was aborted by %s raised inside Chameleon (never seen on the reference tree): %s\n%s' % (
+                              type(exc).__name__, str(exc).split('\n')[0][:200], err[-1500:]), None)
     res = ctx.dump()
     res.update(status=status, error=err, wall_s=time.time() - t0, shard=int(shard))
     tmp = out + '.tmp'
